@@ -17,8 +17,14 @@ def _shard(args):
     if hist > 2 and i % 2 == 1:
         cmd += ["-windowcache", "128"]   # thorough tier: a second window size
     t0 = time.time()
-    with open(out, "w") as fo:
-        p = subprocess.run(cmd, stdout=fo, stderr=subprocess.PIPE, env=vlib.GOENV, timeout=3000)
+    import shutil
+    tmpd = out + ".tmp"
+    os.makedirs(tmpd, exist_ok=True)
+    try:
+        with open(out, "w") as fo:
+            p = subprocess.run(cmd, stdout=fo, stderr=subprocess.PIPE, env=dict(vlib.GOENV, TMPDIR=tmpd), timeout=3000)
+    finally:
+        shutil.rmtree(tmpd, ignore_errors=True)
     t1 = time.time()
     # only the store traffic goes to the model (S lines of cmd/store's grammar)
     sl = subprocess.Popen(["grep", "^S ", out], stdout=subprocess.PIPE)
